@@ -121,7 +121,7 @@ func harnessOverlay(env *Env, module, pkg string) (map[string]string, string, er
 		return nil, "", fmt.Errorf("no harness files in %s", dir)
 	}
 	// shared native support + replay test, generated with the right package clause
-	gen := filepath.Join(env.Build, "gen", module, pkg)
+	gen := filepath.Join(env.Build, "gen", sanitize(env.Repo), module, pkg)
 	os.MkdirAll(gen, 0o755)
 	for _, f := range []struct{ tmpl, out, virt string }{
 		{"support.go.tmpl", "support.go", "zz_verif_support.go"},
@@ -239,6 +239,7 @@ type RunResult struct {
 	solverErr []string
 	timedOut  bool
 	coreHits  int
+	fallbacks int
 	ivalSkips int
 	siteStats map[string]*[3]int
 	crashed   []string
@@ -326,6 +327,7 @@ func runJobs(env *Env, ld *Loaded, jobs []*Job, specs map[string]JobSpec) *RunRe
 			}
 			rr.solverErr = append(rr.solverErr, s.errs...)
 			rr.coreHits += s.coreHits
+			rr.fallbacks += s.nfallback
 			rr.ivalSkips += ex.skipped
 			mu.Unlock()
 		}(w)
